@@ -54,7 +54,7 @@ def oracle(ctx, st, ob):
     for i in range(n):
         for j in range(n):
             xi, xj = [atoms[i].x, atoms[i].y, atoms[i].z], [atoms[j].x, atoms[j].y, atoms[j].z]
-            d, nop = sc.true_min(G, exact, xi, xj)
+            d, nop = sc.true_min(G, exact, xi, xj, same=(i == j))
             ev += 1
             it = items.get((i, j))
             if it is not None and it[2]:
